@@ -37,6 +37,11 @@ DIRECTED = [
     "newfs", "mkdir e", "create e log", "append 0 6f6e652c", "link e log e log.lnk", "append 0 74776f2c", "open e log.lnk", "readat 1 0 100", "open e log", "readat 2 0 100",
     "delete e log", "append 0 33", "readat 1 0 100", "open e log.lnk", "readat 3 0 100", "close 0", "list e",
 ]
+# a descriptor that stays open while more than 1024 others are opened and closed (any fixed-size or wrapping descriptor table)
+DIRECTED += ["newfs", "mkdir w", "create w keep", "append 0 6b31", "atomic w other 6f"]
+for _k in range(1100):
+    DIRECTED += ["open w other", "close %d" % (_k + 1)]
+DIRECTED += ["append 0 6b32", "open w keep", "readat 1101 0 100", "append 0 6b33", "readat 1101 0 100", "close 0", "list w"]
 
 
 def is_start(op):
